@@ -22,7 +22,8 @@ Inductive sql :=
 | SetG        (* SET of an untracked GUC or SET ROLE: session level *)
 | Prepare     (* SQL PREPARE *)
 | Fail        (* a statement the server answers with ErrorResponse *)
-| CopyIn.     (* COPY .. FROM STDIN *)
+| CopyIn      (* COPY .. FROM STDIN *)
+| DeallocAll. (* DEALLOCATE ALL issued by the client: drops the SQL-prepared statements, leaves the GUCs *)
 
 Record bt := {                 (* backend truth *)
   txn : tx;
@@ -41,7 +42,7 @@ Definition clean (cc : bool) (b : bt) : bool :=
      transaction / COPY part of the property can hold *)
   tx_eqb (txn b) TI && negb (copy b) && (negb cc || (negb (gout b) && negb (prep b))).
 
-Inductive rtag := RBegin | RCommit | RRollback | RSelect | RSet | RPrepare | RError | RCopyIn | ROther.
+Inductive rtag := RBegin | RCommit | RRollback | RSelect | RSet | RPrepare | RError | RCopyIn | RDealloc | ROther.
 
 (** One statement on the backend: new state and the reply tag. *)
 Definition bexec (b : bt) (s : sql) : bt * rtag :=
@@ -59,6 +60,7 @@ Definition bexec (b : bt) (s : sql) : bt * rtag :=
   | TT, Fail => ({| txn := TE; copy := copy b; gout := gout b; gtxn := gtxn b; gin := gin b; prep := prep b |}, RError)
   | _, Fail => (b, RError)
   | _, CopyIn => ({| txn := txn b; copy := true; gout := gout b; gtxn := gtxn b; gin := gin b; prep := prep b |}, RCopyIn)
+  | _, DeallocAll => ({| txn := txn b; copy := copy b; gout := gout b; gtxn := gtxn b; gin := gin b; prep := false |}, RDealloc)
   end.
 
 (** A simple Query with several statements: an error or a CopyInResponse ends the processing;
